@@ -245,69 +245,145 @@ def check(prog, rep):
         raise AnalysisError("Constraint.violation: evaluated value not found")
     from ..scenario import Explorer
 
-    def violation_form(sense):
-        """The expression Constraint.violation returns for this sense, locals substituted."""
-        def atom_truth(t, state):
-            ot = op_test(t)
-            if ot and ot[0].endswith("sense"):
-                hit = sense in ot[1]
-                return (not hit) if ot[2] else hit
+    # Constraint.violation is evaluated per sense into a small normal form over the evaluated value v:
+    #   ('lin', k) = k*v   ('max0', k) = max(0, k*v)   ('abs', k) = |k*v|   ('const', c)   ('none',)   '?'
+    def _module_dict(name):
+        for st in viol.module.tree.body:
+            tg = st.targets[0] if isinstance(st, ast.Assign) and len(st.targets) == 1 else st.target if isinstance(st, ast.AnnAssign) else None
+            if isinstance(tg, ast.Name) and tg.id == name and isinstance(getattr(st, "value", None), ast.Dict):
+                return st.value
+        return None
+
+    def _num(e):
+        try:
+            v_ = ast.literal_eval(e)
+            return float(v_) if isinstance(v_, (int, float)) and not isinstance(v_, bool) else None
+        except Exception:
             return None
 
-        class Sub(ast.NodeTransformer):
-            def __init__(self, env):
-                self.env = env
+    def ev(e, env, sense, depth=0):
+        if depth > 8:
+            return "?"
+        if isinstance(e, ast.Name):
+            if e.id in vals:
+                return ("lin", 1.0)
+            return env.get(e.id, "?")
+        if isinstance(e, ast.Constant):
+            if e.value is None:
+                return ("none",)
+            n_ = _num(e)
+            return ("const", n_) if n_ is not None else "?"
+        if isinstance(e, ast.Attribute) and src(e) in ("self.sense",):
+            return ("str", sense)
+        if isinstance(e, ast.UnaryOp) and isinstance(e.op, ast.USub):
+            x = ev(e.operand, env, sense, depth + 1)
+            if x != "?" and x[0] in ("lin", "const"):
+                return (x[0], -x[1])
+            return "?"
+        if isinstance(e, ast.BinOp) and isinstance(e.op, ast.Mult):
+            l, r = ev(e.left, env, sense, depth + 1), ev(e.right, env, sense, depth + 1)
+            for x, y in ((l, r), (r, l)):
+                if x != "?" and y != "?" and x[0] == "const" and y[0] in ("lin", "const"):
+                    return (y[0], x[1] * y[1])
+            return "?"
+        if isinstance(e, ast.IfExp):
+            t = tr(e.test, env, sense)
+            if t is None:
+                return "?"
+            return ev(e.body if t else e.orelse, env, sense, depth + 1)
+        if isinstance(e, ast.Subscript) and isinstance(e.value, ast.Name) and src(e.slice) == "self.sense":
+            d = _module_dict(e.value.id)
+            if d is not None:
+                for k, v_ in zip(d.keys, d.values):
+                    if isinstance(k, ast.Constant) and k.value == sense:
+                        return ev(v_, env, sense, depth + 1)
+                return "?"      # KeyError at run time: not a value
+            return "?"
+        if isinstance(e, ast.Call):
+            f = dotted(e.func) or ""
+            if isinstance(e.func, ast.Attribute) and e.func.attr == "get" and isinstance(e.func.value, ast.Name) and e.args and src(e.args[0]) == "self.sense":
+                d = _module_dict(e.func.value.id)
+                if d is None:
+                    return "?"
+                for k, v_ in zip(d.keys, d.values):
+                    if isinstance(k, ast.Constant) and k.value == sense:
+                        return ev(v_, env, sense, depth + 1)
+                return ev(e.args[1], env, sense, depth + 1) if len(e.args) > 1 else ("none",)
+            if f == "float" and len(e.args) == 1:
+                return ev(e.args[0], env, sense, depth + 1)
+            if f in ("max", "np.maximum") and len(e.args) == 2:
+                a_, b_ = ev(e.args[0], env, sense, depth + 1), ev(e.args[1], env, sense, depth + 1)
+                for x, y in ((a_, b_), (b_, a_)):
+                    if x != "?" and y != "?" and x[0] == "const" and x[1] == 0 and y[0] == "lin":
+                        return ("max0", y[1])
+                return "?"
+            if f in ("abs", "np.abs", "np.absolute", "math.fabs") and len(e.args) == 1:
+                x = ev(e.args[0], env, sense, depth + 1)
+                if x != "?" and x[0] == "lin":
+                    return ("abs", abs(x[1]))
+                return "?"
+        return "?"
 
-            def visit_Name(self, node):
-                if node.id in self.env and isinstance(node.ctx, ast.Load) and node.id not in vals:
-                    import copy
-                    return clone(self.env[node.id])
-                return node
+    def tr(t, env, sense):
+        if isinstance(t, ast.UnaryOp) and isinstance(t.op, ast.Not):
+            r = tr(t.operand, env, sense)
+            return None if r is None else (not r)
+        if isinstance(t, ast.BoolOp):
+            rs = [tr(x, env, sense) for x in t.values]
+            if isinstance(t.op, ast.And):
+                return False if any(r is False for r in rs) else None if any(r is None for r in rs) else True
+            return True if any(r is True for r in rs) else None if any(r is None for r in rs) else False
+        ot = op_test(t)
+        if ot and ot[0].endswith("sense"):
+            hit = sense in ot[1]
+            return (not hit) if ot[2] else hit
+        if isinstance(t, ast.Attribute) and dotted(t.value) == "self" and t.attr in C.methods and "property" in [ast.unparse(d) for d in C.methods[t.attr].node.decorator_list]:
+            body = [x for x in C.methods[t.attr].node.body if not (isinstance(x, ast.Expr) and isinstance(x.value, ast.Constant))]
+            if len(body) == 1 and isinstance(body[0], ast.Return) and body[0].value is not None:
+                return tr(body[0].value, {}, sense)
+            return None
+        if isinstance(t, ast.Compare) and len(t.ops) == 1 and isinstance(t.comparators[0], ast.Constant) and t.comparators[0].value is None and isinstance(t.ops[0], (ast.Is, ast.IsNot)):
+            x = ev(t.left, env, sense)
+            if x == "?":
+                return None
+            isn = x == ("none",)
+            return isn if isinstance(t.ops[0], ast.Is) else not isn
+        return None
+
+    def violation_form(sense):
+        def atom_truth(t, state):
+            return tr(t, state["env"], sense)
 
         def on_stmt(st, state):
-            if isinstance(st, ast.Assign) and len(st.targets) == 1 and isinstance(st.targets[0], ast.Name) and st.targets[0].id not in vals:
-                import copy
-                state["env"][st.targets[0].id] = Sub(state["env"]).visit(clone(st.value))
+            if isinstance(st, (ast.Assign, ast.AnnAssign)) and getattr(st, "value", None) is not None:
+                tg = st.targets[0] if isinstance(st, ast.Assign) else st.target
+                if isinstance(tg, ast.Name) and tg.id not in vals:
+                    state["env"][tg.id] = ev(st.value, state["env"], sense)
 
-        import copy
-        paths = Explorer(atom_truth, on_stmt).explore(viol.node.body, {"env": {}})
-        forms = []
+        try:
+            paths = Explorer(atom_truth, on_stmt).explore(viol.node.body, {"env": {}})
+        except Exception:
+            return "?"
+        forms = set()
         for state, term in paths:
+            if term == "raise":
+                continue
             if isinstance(term, tuple) and term[1] is not None:
-                forms.append(Sub(state["env"]).visit(clone(term[1])))
+                forms.add(ev(term[1], state["env"], sense))
             else:
-                forms.append(None)
-        texts = {src(f) if f is not None else None for f in forms}
-        return forms[0] if len(texts) == 1 else None
+                forms.add("?")
+        return forms.pop() if len(forms) == 1 else "?"
 
-    table = {sense: violation_form(sense) for sense in ("<=", ">=", "==")}
-
-    def form(e):
-        return e
-
-    def is_v(n):
-        return isinstance(n, ast.Name) and n.id in vals
-
-    def is_zero(n):
-        return isinstance(n, ast.Constant) and n.value == 0
-
+    WANT = {"<=": ("max0", 1.0), ">=": ("max0", -1.0), "==": ("abs", 1.0)}
+    SHOW = {"max0": lambda k: f"max(0, {'-' if k < 0 else ''}{'' if abs(k) == 1 else abs(k)}v)", "abs": lambda k: f"|{'' if k == 1 else k}v|", "lin": lambda k: f"{k}*v", "const": lambda k: str(k)}
     for sense in ("<=", ">=", "=="):
-        e = form(table.get(sense))
-        ok = False
-        if e is not None and isinstance(e, ast.Call):
-            f = dotted(e.func)
-            if sense in ("<=", ">=") and f == "max" and len(e.args) == 2:
-                a, b = e.args
-                other = b if is_zero(a) else a if is_zero(b) else None
-                if other is not None:
-                    if sense == "<=" and is_v(other):
-                        ok = True
-                    if sense == ">=" and isinstance(other, ast.UnaryOp) and isinstance(other.op, ast.USub) and is_v(other.operand):
-                        ok = True
-            if sense == "==" and f in ("abs", "np.abs") and e.args and is_v(e.args[0]):
-                ok = True
+        got = violation_form(sense)
         want = {"<=": "max(0, v)", ">=": "max(0, -v)", "==": "|v|"}[sense]
-        rep.ob("R10.2", "Constraint.violation", ok, f"{sense}: {want}" if ok else f"violation for sense {sense!r} is `{src(e) if e is not None else 'missing'}`; the relation requires {want}", loc=viol.loc, detail=f"sense:{sense}")
+        if got == "?" or got[0] not in SHOW:
+            rep.undecided(f"Constraint.violation: what is returned for sense {sense!r} is not interpretable")
+            continue
+        ok = got == WANT[sense]
+        rep.ob("R10.2", "Constraint.violation", ok, f"{sense}: {want}" if ok else f"violation for sense {sense!r} is {SHOW[got[0]](got[1])}; the relation requires {want}", loc=viol.loc, detail=f"sense:{sense}", robust=True)
     sat = C.methods.get("is_satisfied")
     ok = False
     if sat is not None:
